@@ -50,3 +50,41 @@ Definition eval (c : case) : list bool :=
    && ares_eqb (apply_limiter f) (o_lim o)
    && oracle_laws f)%bool
   :: clauses f o.
+
+(* ---------- extension: one object, or a pair (object 1, object 2 of the same name), plus the remote rounds ---------- *)
+Record xcase := {
+  x1 : case;
+  x2 : option (case * delta * upd_obs);
+  xlower : bool;                  (* ORACLE strings.ToLower(name) == name *)
+  xrounds : list round_res;       (* observed *)
+}.
+
+Definition rres_eqb (a b : rres) : bool :=
+  match a, b with RSkip, RSkip | ROk, ROk | RErr, RErr | RPanic, RPanic => true | _, _ => false end.
+Definition round_eqb (a b : round_res) : bool :=
+  (rres_eqb (rr_sync a) (rr_sync b) && rres_eqb (rr_count a) (rr_count b)
+   && rres_eqb (rr_alloc a) (rr_alloc b) && rres_eqb (rr_load a) (rr_load b))%bool.
+Definition opt_ares_eqb (a b : option ares) : bool := opt_eqb ares_eqb a b.
+
+Definition versions (x : xcase) : list (list schema) :=
+  f_schemas (cf (x1 x)) :: match x2 x with Some (c2, _, _) => [f_schemas (cf c2)] | None => [] end.
+
+(* clause layout: agree, total, sound, rejects, sound_update, sound_remote *)
+Definition eval_x (x : xcase) : list bool :=
+  let e1 := eval (x1 x) in
+  let e2 := match x2 x with Some (c2, _, _) => eval c2 | None => [true; true; true; true] end in
+  let both i := (nth i e1 false && nth i e2 false)%bool in
+  let f1 := cf (x1 x) in
+  let agree_upd := match x2 x with
+                   | Some (c2, d, u) =>
+                       (opt_ares_eqb (apply_update_info f1 (cf c2) d) (u_info u)
+                        && ares_eqb (apply_update_ctrl f1 (cf c2) d) (u_ctrl u)
+                        && ares_eqb (apply_limiter_update f1 (cf c2)) (u_lim u))%bool
+                   | None => true end in
+  let admits := o_admit (co (x1 x)) :: match x2 x with Some (c2, _, _) => [o_admit (co c2)] | None => [] end in
+  [ (both 0%nat && agree_upd
+     && list_eqb round_eqb (remote_rounds all_fixes (xlower x) (versions x)) (xrounds x)
+     && (if f_name_ok f1 then xlower x else true))%bool;      (* law: a DNS-subdomain name is lower case *)
+    both 1%nat; both 2%nat; both 3%nat;
+    match x2 x with Some (c2, _, u) => sound_update_ok (co (x1 x)) (co c2) u | None => true end;
+    sound_remote_ok admits (xrounds x) ].
